@@ -150,6 +150,34 @@ def validate(ctx, files, stage, module=TRACE, reset=None):
     return mism, len(lines), merged
 
 
+# ------------------------------------------------------------------ (P) beyond the small scope [proofprimset]
+def proof_beyond_bound(ctx):
+    """Thorough tier only. spec/proofs/PrimitiveSetAbs.tla restates PrimitiveSet.tla's property rule and mechanism for an
+    arbitrary id set and keysets of any length; TLAPS proves mechanism <=> property there (accept verdict, logged key,
+    producer, PRF set). MC_PrimitiveSetAbsAgree has TLC check that every operator of that module returns the same value as
+    its namesake in PrimitiveSet.tla on every keyset / class / input of MC_PrimitiveSet_quick. Anything but a complete
+    proof / a clean model check is exit 2 (this is about the model, never a verdict on the code)."""
+    import re
+    import shutil
+    import subprocess
+    d = os.path.join(ctx.scratch, "tlaps-primset")
+    os.makedirs(d)
+    shutil.copy(os.path.join(os.path.dirname(os.path.dirname(os.path.abspath(__file__))), "spec", "proofs", "PrimitiveSetAbs.tla"), d)
+    try:
+        # (--stretch: back-end timeouts x3, the machine is shared; measured alone: 374 obligations, 13 s wall, 1 CPU-min)
+        r = subprocess.run(["tlapm", "--threads", "8", "--cleanfp", "--stretch", "3", "PrimitiveSetAbs.tla"], cwd=d,
+                           capture_output=True, text=True, timeout=3600)
+    except subprocess.TimeoutExpired:
+        ctx.infra("tlapm timeout (PrimitiveSetAbs)")
+    m = re.search(r"All (\d+) obligations proved", r.stdout + r.stderr)
+    if not m:
+        ctx.infra("TLAPS proof of PrimitiveSetAbs failed: " + (r.stdout + r.stderr)[-1500:])
+    ctx.stage("P:TLAPS PrimitiveSetAbs", obligations=int(m.group(1)), discharged=int(m.group(1)))
+    ctx.log("TLAPS PrimitiveSetAbs: all %s obligations proved" % m.group(1))
+    ctx.model_check("MC_PrimitiveSetAbsAgree", "MC_PrimitiveSetAbsAgree", timeout=7200, workers=8, must_cover=False,
+                    stage="P:PrimitiveSetAbs = PrimitiveSet on all keysets <=3 keys (agreement of the proved module)")
+
+
 # ------------------------------------------------------------------ the check
 def run(ctx):
     ctx.cov["rule"] = (
@@ -278,6 +306,8 @@ def run(ctx):
     if not mism and not mism2:
         ctx.negative_control(TRACE, merged1, corrupt, window=40)
         ctx.negative_control(TRACE_H, merged2, corrupt, reset="reset", stage="NC:histories")
+    if ctx.thorough:                      # [proofprimset] (P) after all other stages; quick is unchanged
+        proof_beyond_bound(ctx)
 
 
 MANIFEST = dict(
